@@ -183,7 +183,7 @@ func run17(c drv.Case, res *drv.Result) {
 	cafsh.InstallWriteProgressMonitor()
 	res.Canon = string(c.Params)
 	r := rand.New(rand.NewSource(p.Seed))
-	env := coreh.NewEnv(memstore.Config{})
+	env := coreh.NewEnv(memstore.Config{ChunkedReader: []int{0, 0, 100, 4096}[p.Seed%4], EOFWithData: (p.Seed/4)%2 == 1})
 	must := func(err error) {
 		if err != nil {
 			panic(fmt.Sprintf("set-up failed: %v", err))
